@@ -4,7 +4,7 @@
    files.  Violations are interned (c_vtab) and referred to by index.  The judge returns
      [ domain ok ; impl sequential = model sequential ; impl parallel ~ impl sequential (the property) ;
        model ideal parallel ~ model sequential ; impl parallel = model parallel under each candidate ;
-       the case is in the class of theorem C07_errors_swallowed ]. *)
+       the case is in the class of theorem C07_errors_swallowed ; the worker-history stream agrees with the model's worker ]. *)
 From TL Require Import Lib.Base Lib.GenTypes Model.OrchParTypes Gen.OrchParGen Model.OrchPar.
 
 Record pcase := {
@@ -14,11 +14,16 @@ Record pcase := {
   c_rep_full : list nat;                  (* finalize() after lint_file of every file, in order *)
   c_seen : list bool;                     (* by file number: the raw-path exclusion / ignore test lets the file through *)
   c_rep_seen : list nat;                  (* finalize() after lint_file of the files let through, in order *)
+  c_groups : list (list nat);             (* several targets on one command line: the files of each call, in order; [] = one call on all files *)
+  c_group_reports : list (list nat * list nat); (* finalize() after lint_file of exactly these files (further evidence lists, per group) *)
   c_mw : option nat;                      (* max_workers argument *)
   c_cpu : nat;                            (* multiprocessing.cpu_count() *)
   c_sched : list nat;                     (* the order in which as_completed yielded the futures *)
   c_ordered : bool;                       (* the order was controlled: compare lists, else multisets *)
   c_cmd : option string;                  (* CLI command: outputs are the JSON views, exit codes count *)
+  c_served : list (nat * option (list nat)); (* worker-history stream: (file, what _lint_file_worker returned for it in a
+                                             process that had served other files before; None = it raised) - dictionaries,
+                                             interned in c_vtab like the violations *)
   c_seq : option (list nat);              (* implementation, sequential (None = raised / error exit) *)
   c_par : option (list nat);              (* implementation, parallel *)
   c_seq_exit : nat;
@@ -39,19 +44,33 @@ Definition m_perfile (c : pcase) (f : nat) : option (list violation) :=
 Definition m_sees (c : pcase) (f : nat) : bool := nth f (c_seen c) true.
 Definition seen_files (c : pcase) : list nat := filter (m_sees c) (files_of c).
 
+Fixpoint lookup_report (ev : list nat) (t : list (list nat * list nat)) : option (list nat) :=
+  match t with
+  | [] => None
+  | (k, v) :: r => if list_eqb Nat.eqb ev k then Some v else lookup_report ev r
+  end.
+
 Definition m_report (c : pcase) (ev : list nat) : list violation :=
   match ev with
   | [] => look c (c_rep_nil c)
   | _ => if list_eqb Nat.eqb ev (files_of c) then look c (c_rep_full c)
          else if list_eqb Nat.eqb ev (seen_files c) then look c (c_rep_seen c)
-         else [poison]
+         else match lookup_report ev (c_group_reports c) with Some v => look c v | None => [poison] end
   end.
 
 Definition m_seq (c : pcase) : option (list violation) :=
-  seq_run nat nat (m_perfile c) (fun f => f) (m_report c) (files_of c).
+  match c_groups c with
+  | [] => seq_run nat nat (m_perfile c) (fun f => f) (m_report c) (files_of c)
+  | gs => groups_seq_run nat nat (m_perfile c) (fun f => f) (m_report c) gs
+  end.
 
+(* several groups: every group in its submission order (such cases are compared as multisets) *)
 Definition m_par (q : pquirks) (c : pcase) : option (list violation) :=
-  par_run nat nat (m_perfile c) (fun f => f) (m_report c) (m_sees c) q (c_mw c) (c_cpu c) (c_sched c) (files_of c).
+  match c_groups c with
+  | [] => par_run nat nat (m_perfile c) (fun f => f) (m_report c) (m_sees c) q (c_mw c) (c_cpu c) (c_sched c) (files_of c)
+  | gs => groups_par_run nat nat (m_perfile c) (fun f => f) (m_report c) (m_sees c) q (c_mw c) (c_cpu c)
+            (map (fun g : list nat => seq 0 (List.length g)) gs) gs
+  end.
 
 Definition with_flag (i : nat) (q : pquirks) : pquirks :=
   match i with
@@ -85,6 +104,8 @@ Definition domain_ok (c : pcase) : bool :=
     (List.concat (map (fun o : option (list nat) => match o with Some l => look c l | None => [] end) (c_perfile c)))
   && forallb wf_violation (look c (c_rep_full c)) && forallb wf_violation (look c (c_rep_nil c))
   && is_perm_of_range (c_sched c) (nfiles c) && (List.length (c_seen c) =? nfiles c)
+  && forallb (forallb (fun f => f <? nfiles c)) (c_groups c)
+  && match c_groups c with [] => true | _ => negb (c_ordered c) end
   && match c_cmd c with None => true | Some n => match assoc n cli_commands with Some _ => true | None => false end end.
 
 (* the class of C07_errors_swallowed: some file raises, the worker pool is used, the handlers swallow: the
@@ -95,6 +116,16 @@ Definition err_explained (q : pquirks) (c : pcase) : bool :=
   && match mapM (m_perfile c) (files_of c) with None => true | Some _ => false end
   && match c_cmd c, c_seq c, c_par c with None, None, Some _ => true | _, _, _ => false end.
 
+(* every recorded task of a pooled worker returned what the model's worker returns from the fresh-process table:
+   lint_file does not depend on what the process served before, and to_dict is the modelled one *)
+Definition served_ok (q : pquirks) (c : pcase) : bool :=
+  forallb (fun t : nat * option (list nat) =>
+             match worker nat (m_perfile c) q (fst t), snd t with
+             | Some ds, Some l => list_eqb violation_eqb ds (look c l)
+             | None, None => true
+             | _, _ => false
+             end) (c_served c).
+
 Definition judge (q : pquirks) (c : pcase) : list bool :=
   let impl_seq := (option_map (look c) (c_seq c), c_seq_exit c) in
   let impl_par := (option_map (look c) (c_par c), c_par_exit c) in
@@ -103,4 +134,4 @@ Definition judge (q : pquirks) (c : pcase) : list bool :=
   :: obs_eq false impl_par impl_seq
   :: obs_eq false (view c (m_par ideal c)) (view c (m_seq c))
   :: map (fun k => obs_eq (c_ordered c) impl_par (view c (m_par k c))) (candidates q)
-  ++ [err_explained q c].
+  ++ [err_explained q c; served_ok q c].
